@@ -163,6 +163,9 @@ func vBuildSync(N, R, K, opts int) *vSyncWorld {
 	w.apiRevs = append(w.apiRevs, sw.upd)
 	sw.revs = append(sw.revs, &vSyncRev{rev: sw.upd, owner: updOwner, labels: true})
 	if opts&yRevDims != 0 {
+		// no history is kept, so that every revision the controller counts as unused history is deleted
+		zero := int32(0)
+		set.Spec.RevisionHistoryLimit = &zero
 		// one more revision with every owner / label / marker combination
 		x := vRevision(set, "A", 1)
 		x.Name = vSetName + "-extra"
